@@ -1314,7 +1314,9 @@ with p_static_assert (fuel: nat) : M (list node) :=
     expect K_LPAREN ;;;
     cond <- p_conditional_expression f ;;
     cm <- accept K_COMMA ;;
-    msg <- (match cm with Some _ => p_unified_string_literal f | None => ret VNone end) ;;
+    msg <- (match cm with
+            | Some _ => k <- peek_kind ;; if okind_in k tbl_WSTR_LITERAL then p_unified_wstring_literal f else p_unified_string_literal f
+            | None => ret VNone end) ;;
     expect K_RPAREN ;;;
     c <- tcoord t ;;
     ret [mkN C_StaticAssert [cond; msg] c]
